@@ -11,6 +11,8 @@ Fixpoint spec_ity (d : dkind) : ity :=
   | DBool => IB TBool | DInt => IB TInt | DFloat => IB TFloat | DStr => IB TStr
   | DTuple l => ITuple (map spec_ity l)
   | DOther => IFail
+  | DList [] => IListBare                    (* nothing to go by: a list of whatever is written *)
+  | DList (x :: _) => IList (spec_ity x)      (* items are assumed to have the type of the first *)
   end.
 Definition bty_eqb (a b : bty) : bool :=
   match a, b with TInt, TInt | TStr, TStr | TFloat, TFloat | TBool, TBool => true | _, _ => false end.
@@ -21,6 +23,8 @@ Fixpoint ity_eqb (a b : ity) : bool :=
       (fix go (l1 l2 : list ity) : bool :=
          match l1, l2 with [], [] => true | x :: r1, y :: r2 => ity_eqb x y && go r1 r2 | _, _ => false end) l1 l2
   | IFail, IFail => true
+  | IList x, IList y => ity_eqb x y
+  | IListBare, IListBare => true
   | _, _ => false
   end.
 Definition spec_inferred (untyped : list (string * dkind)) (observed : list (string * ity)) : bool :=
